@@ -294,10 +294,15 @@ import reuse.cli.annotate as an  # noqa: E402
 import reuse.project as pj  # noqa: E402
 
 
-def _rec_story(d1, d1sym, d1ign, d1sub, g, gk, gign, use_vcs, req):
+def _rec_story(d1, d1sym, d1ign, d1sub, g, gk, gign, use_vcs, req, sib=False):
     dn, gi, gkind, d1sym, d1ign, d1sub, gign, fs, tree, vcs, (D1, G, D2, H, F) = _tree(d1, d1sym, d1ign, d1sub, g, gk, gign, False)
     use_vcs = _b(use_vcs)
+    sib = _b(sib)
     inc_sub, inc_meson, inc_toml = FLAGS
+    if sib:
+        # h.py has a .license sibling: annotate must be pointed at the sibling, also under --recursive
+        fs[H + ".license"] = "file"
+        tree[D2] = ([], ["h.py", "h.py.license"])
     FakePath.FS = fs
     targets = [ROOT, D1, D2, F, G]
     t = targets[_pick_from(req, PARAMS.get("requests", [0, 1, 2, 3, 4]))]
@@ -324,24 +329,26 @@ def _rec_story(d1, d1sym, d1ign, d1sub, g, gk, gign, use_vcs, req):
         exp = [t] if fs.get(t) in ("file", "empty", "symlink-file", "stat-error-file") else []
     else:
         exp = [c for c in covered if c.startswith(t + "/")]
+    if sib:
+        exp = [(c + ".license") if c == H else c for c in exp]
     d = {"dir": dn, "dir_symlink": d1sym, "dir_vcs_ignored": d1ign, "dir_submodule": d1sub, "file": NAMES[gi][0], "file_kind": gkind, "file_vcs_ignored": gign, "vcs": use_vcs, "flags": FLAGS, "requested": t, "got": got, "expected": sorted(exp)}
     return got == sorted(exp) or known_key(gi) in CARVE, d
 
 
-def _rec(d1: int, d1sym: bool, d1ign: bool, d1sub: bool, g: int, gk: int, gign: bool, use_vcs: bool, req: int) -> bool:
+def _rec(d1: int, d1sym: bool, d1ign: bool, d1sub: bool, g: int, gk: int, gign: bool, use_vcs: bool, req: int, sib: bool) -> bool:
     """
     pre: _pre_iter(d1, g, gk) and _member(req, PARAMS.get("requests", [0, 1, 2, 3, 4]))
     post: _
     """
-    return _rec_story(d1, d1sym, d1ign, d1sub, g, gk, gign, use_vcs, req)[0]
+    return _rec_story(d1, d1sym, d1ign, d1sub, g, gk, gign, use_vcs, req, sib)[0]
 
 
-def _rec_reach(d1: int, d1sym: bool, d1ign: bool, d1sub: bool, g: int, gk: int, gign: bool, use_vcs: bool, req: int) -> bool:
+def _rec_reach(d1: int, d1sym: bool, d1ign: bool, d1sub: bool, g: int, gk: int, gign: bool, use_vcs: bool, req: int, sib: bool) -> bool:
     """
     pre: _pre_iter(d1, g, gk) and _member(req, PARAMS.get("requests", [0, 1, 2, 3, 4]))
     post: False
     """
-    return _rec_story(d1, d1sym, d1ign, d1sub, g, gk, gign, use_vcs, req)[0]
+    return _rec_story(d1, d1sym, d1ign, d1sub, g, gk, gign, use_vcs, req, sib)[0]
 
 
 def explain_rec(*a):
